@@ -45,7 +45,7 @@ def case(ctx, i, rec):
     try:
         out = rescaling.rescale_tree_sequence(ts, mu, **kw)
     except Exception as e:
-        if "Use fewer rescaling intervals" in str(e):
+        if "fewer rescaling intervals" in str(e):
             rec.count("no_return:use-fewer-intervals")
             rec.violation("raised:use-fewer-rescaling-intervals",
                           f"valid contemporaneous input raised {type(e).__name__} 'Use fewer rescaling intervals' with {kw}")
